@@ -56,7 +56,8 @@ structure Tomb where
   hi : TS
 deriving Repr, DecidableEq
 
-/-- File modification time: an explicit second (set by `os.Chtimes`) or "fresh"
+/-- File modification time: explicit NANOSECONDS after the epoch (set by `os.Chtimes`;
+    `time.Time.After` compares at nanosecond resolution) or "fresh"
     (written at wall-clock time, later than every `since` a case names). -/
 inductive MTime
   | at (sec : Int)
@@ -528,7 +529,7 @@ def step (st : State) : Op → State × Obs
   | .snap => ({ st with src := st.src.flush }, .ok)
   | .compact => ({ st with src := st.src.compact }, .ok)
   | .age sec =>
-    if sec < 0 || sec ≥ 1000000000 then (st, .badOp) else
+    if sec < 0 || sec ≥ 1000000000000000000 then (st, .badOp) else
     ({ st with src := st.src.age sec }, .ok)
   | .backup id since =>
     let (s', a) := st.src.backup since
